@@ -76,9 +76,11 @@ def guarded(fn):
 
 
 # ------------------------------------------------------------------ files
-def write_text(text, crlf=False, ext="itp"):
-    """writes `text` (\\n newlines) to a fresh file; crlf: with \\r\\n line ends (Python reads it back as \\n)"""
-    path = molgen.fresh_path(ext, "t")
+def write_text(text, crlf=False, ext="itp", path=None):
+    """writes `text` (\\n newlines) to a fresh file (or OVER the given path: call histories on one scratch name);
+    crlf: with \\r\\n line ends (Python reads it back as \\n)"""
+    if path is None:
+        path = molgen.fresh_path(ext, "t")
     with open(path, "w", newline="") as f:
         f.write(text.replace("\n", "\r\n") if crlf else text)
     return path
@@ -428,6 +430,60 @@ def boundary_graphs(rs):
         out.append(("two_components_%d" % n, n, tree_on(rs, range(n // 2)) + tree_on(rs, range(n // 2, n))))
         cyc = tree_on(rs, range(n - 1)) + [(int(rs.randint(0, n - 1)), int(rs.randint(0, n - 1))) for _ in range(40)]
         out.append(("cyclic_then_isolated_%d" % n, n, [b for b in cyc if b[0] != b[1]]))
+    return out
+
+
+def variant_sequence(rs, steps=None):
+    """[(kind, text, truth)]: successive DIFFERENT topologies meant to be written to ONE path and loaded back to back
+    (a loader must reflect the current content of the file, whatever it loaded from that path before).  Steps of kind
+    names / bonds / comment have exactly the byte length of their predecessor (two atom names, two bond partners or
+    two comment words swapped); `new` is an unrelated topology."""
+    def fresh():
+        n = int(rs.randint(4, 12))
+        t = gen_topology(rs, n, "tree", deco=False, spread=True)
+        t["comment"] = ["alpha", "beta"]
+        return t
+
+    def render(t):
+        num = t["numbers"]
+        lines = ["; %s %s" % tuple(t["comment"]), "[ moleculetype ]", "%s 1" % t["name"], "[ atoms ]"]
+        for k, (nr, (an, rn, rid)) in enumerate(zip(num, t["atoms"])):
+            lines.append("%d C %d %s %s %d 0.0 12.0%s" % (nr, rid, rn, an, nr, (" ; %s %s" % tuple(t["comment"])) if k == 0 else ""))
+        for key in ("pairs", "bonds", "constraints"):
+            lines.append("[ %s ]" % key)
+            lines.append("; %s then %s" % tuple(t["comment"]))
+            lines += ["%d %d 1" % (num[a], num[b]) for a, b in t["secs"][key]]
+        return "\n".join(lines) + "\n"
+    t = fresh()
+    out = [("first", render(t), expected_topology(t))]
+    for _ in range(steps or int(rs.randint(3, 7)) - 1):
+        kind = pick(rs, ["names", "names", "bonds", "bonds", "comment", "new"])
+        t = {k: (v if k != "secs" else {a: list(b) for a, b in v.items()}) for k, v in t.items()}
+        t["atoms"], t["comment"] = list(t["atoms"]), list(t["comment"])
+        if kind == "names":
+            i, j = [int(x) for x in rs.choice(len(t["atoms"]), size=2, replace=False)]
+            (ni, ri, di), (nj, rj, dj) = t["atoms"][i], t["atoms"][j]
+            t["atoms"][i], t["atoms"][j] = (nj, ri, di), (ni, rj, dj)
+        elif kind == "bonds":
+            keys = [k for k in ("bonds", "constraints", "pairs") if len(t["secs"][k]) >= 2]
+            done = False
+            if keys:
+                key = pick(rs, keys)
+                i, j = [int(x) for x in rs.choice(len(t["secs"][key]), size=2, replace=False)]
+                (a, b), (c, d) = t["secs"][key][i], t["secs"][key][j]
+                if b != d and a != d and c != b:
+                    t["secs"][key][i], t["secs"][key][j] = (a, d), (c, b)
+                    done = True
+            if not done:
+                kind = "comment"
+        if kind == "comment":
+            t["comment"] = t["comment"][::-1]
+        if kind == "new":
+            t = fresh()
+        text = render(t)
+        assert kind == "new" or len(text) == len(out[-1][1])
+        assert text != out[-1][1]
+        out.append((kind, text, expected_topology(t)))
     return out
 
 
